@@ -17,7 +17,8 @@ pub fn worlds(net: &Net, tier: Tier, idx: u64) -> Vec<World> {
     let hs = [0i16, 90, 180, 270, 350, 45, 200];
     // heading tables (start heading, end heading) per edge, three patterns rotating with the net: all different starts;
     // starts from two values only (consecutive edges often enter with the same heading they were entered with);
-    // one start heading for every edge, straight and curved edges alternating
+    // one start heading for every edge, straight and curved edges alternating; on every other block of nine nets two
+    // thirds of the edges have no end heading (such an edge ends with the heading it starts with)
     let headings: Vec<(i16, i16)> = (0..m)
         .map(|e| match (k / 3) % 3 {
             0 => (hs[(e * 3 + k) % 7], hs[(e * 5 + k / 7 + 1) % 7]),
@@ -51,7 +52,7 @@ pub fn worlds(net: &Net, tier: Tier, idx: u64) -> Vec<World> {
                         feat_time_unit: *ftu,
                         init_dist: *id,
                         init_time: *it,
-                        turn: if turn_on { Some(TurnCfg { headings: headings.clone(), delays, unit: *delu }) } else { None },
+                        turn: if turn_on { Some(TurnCfg { headings: headings.clone(), delays, unit: *delu, blank_departure: (0..m).map(|e| (k / 9) % 2 == 1 && (e + k) % 3 != 1).collect(), no_departure_column: false }) } else { None },
                         w_dist: *wd,
                         w_time: *wt,
                         r_dist: rd.clone(),
@@ -205,7 +206,7 @@ pub fn app_layer(scratch: &crate::world::app::Scratch, net: &Net, st: &mut Stats
     let speeds: Vec<f64> = (0..m).map(|e| [10.0, 30.0, 60.0][(e + k) % 3]).collect();
     let hs = [0i16, 90, 180, 270, 350, 45, 200];
     let headings: Vec<(i16, i16)> = (0..m).map(|e| if (k / 4) % 2 == 0 { (hs[(e * 3 + k) % 7], hs[(e * 5 + k / 7 + 1) % 7]) } else { ([0i16, 90][(e + k) % 2], hs[(e * 5 + 1) % 7]) }).collect();
-    let turn = TurnCfg { headings, delays: [0.25, 0.5, 1.0, 1.5, 2.0, 2.5, 3.0, 9.5], unit: delu };
+    let turn = TurnCfg { headings, delays: [0.25, 0.5, 1.0, 1.5, 2.0, 2.5, 3.0, 9.5], unit: delu, blank_departure: (0..m).map(|e| (k / 30) % 3 == 1 && (e + k / 90) % 2 == 0).collect(), no_departure_column: (k / 30) % 3 == 2 };
     let (wd, wt) = [(0.0, 1.0), (1.0, 1.0), (0.5, 2.0)][(k / 3) % 3];
     let w = World {
         net: net.clone(),
@@ -352,6 +353,18 @@ pub fn run(tier: Tier) -> i32 {
         }
     });
     st.merge(st2);
+    // plain A* (no weight factor, weight factor 1) where the estimate is inconsistent because edges are recorded shorter than
+    // the straight line between their end points: a vertex reached again more cheaply after it was expanded
+    let sspecs = vec![GenSpec { n: 5, max_edges: tier.pick(4, 5), max_mult: 1, n_len: 3, self_loops: false, mode: LenMode::LineShort }];
+    let st2b = par_enumerate(&sspecs, |_spec, net, st| {
+        st.states += 1;
+        let w = World::distance(net.clone());
+        for algo in [Algo::AStar(None), Algo::AStar(Some(1.0)), Algo::AStar(Some(2.0))].iter() {
+            check_case(&w, algo, &Orient::Vertex { o: 0, d: Some(net.n - 1) }, false, st);
+            check_case(&w, algo, &Orient::Vertex { o: 0, d: Some(net.n - 1) }, true, st);
+        }
+    });
+    st.merge(st2b);
     // the same under a time objective: a slow direct edge against a fast detour makes the direct way the expensive one
     // although it is the short one (the shape of the defect repaired by 149ab43); every rotation of three speeds
     let tspecs = vec![GenSpec { n: 4, max_edges: 5, max_mult: 1, n_len: 3, self_loops: false, mode: LenMode::Metric }];
